@@ -11,12 +11,6 @@ import CoseModel.Generated.Facts
 open CoseModel
 namespace C14
 
-theorem facts_labels :
-    Facts.consts.lookup "KeyLabelEC2X" = some (-2) ∧ Facts.consts.lookup "KeyLabelEC2Y" = some (-3) ∧
-    Facts.consts.lookup "KeyLabelEC2D" = some (-4) ∧ Facts.consts.lookup "KeyLabelEC2Curve" = some (-1) ∧
-    Facts.consts.lookup "CurveP256" = some 1 ∧ Facts.consts.lookup "CurveP384" = some 2 ∧
-    Facts.consts.lookup "CurveP521" = some 3 ∧ Facts.consts.lookup "CurveEd25519" = some 6 := by decide
-
 /-- a serialised coordinate is exactly the curve size: the value left-padded with zeros -/
 theorem coord_fullwidth (size x : Nat) (hx : 0 < x) (h : x < 256 ^ size) :
     leftPad size (natBytes x) = fillBytes size x ∧ (leftPad size (natBytes x)).length = size := by
